@@ -292,7 +292,8 @@ func respond(r *env.Recorded) (*http.Response, error) {
 			status = http.StatusForbidden
 		}
 
-		return jsonReply(status, map[string]any{"digest": d, "allow": sum[0]%2 == 0}, map[string]string{"X-Authz-Digest": d}), nil
+		return jsonReply(status, map[string]any{"digest": d, "allow": sum[0]%2 == 0, "quota": 4200000, "ratio": 0.5},
+			map[string]string{"X-Authz-Digest": d}), nil
 	case "contextualizer-endpoint":
 		extra := map[string]string{}
 
@@ -304,7 +305,7 @@ func respond(r *env.Recorded) (*http.Response, error) {
 			}
 		}
 
-		return jsonReply(http.StatusOK, map[string]any{"digest": d}, extra), nil
+		return jsonReply(http.StatusOK, map[string]any{"digest": d, "quota": 4200000, "ratio": 0.5}, extra), nil
 	case "identity-info-endpoint":
 		return jsonReply(http.StatusOK, map[string]any{"sub": "u-" + d, "digest": d}, nil), nil
 	case "introspection-endpoint":
